@@ -301,7 +301,7 @@ func (cs *Contracts) loadContractFile(path, importPath string, external bool) er
 			}
 		case "using":
 			var us []string
-			for _, u := range strings.Split(s.rest, ",") {
+			for _, u := range splitTop(s.rest) {
 				if u = strings.TrimSpace(u); u != "" {
 					us = append(us, u)
 				}
